@@ -10,7 +10,7 @@ from . import vlib
 from . import eng_gfi
 
 RESAMPLE = ["CRepSw", "CVmSw"]      # update that changes every element's switch index: the fresh draws must be independent
-PROGS = ["CChain", "CIndep", "CNest", "CVm", "CRep", "CSc", "CScI", "CScN", "CSw", "CMsk", "CMix", "CDm"]
+PROGS = ["CChain", "CIndep", "CNest", "CVm", "CRep", "CSc", "CScI", "CScN", "CSw", "CMsk", "CMix", "CDm", "CSS", "CVmN", "CScR"]
 DELTA = 1e-12
 
 PROPS = {
@@ -18,10 +18,10 @@ PROPS = {
                 technique="TLA+ denotational semantics gives the exact probability of every complete choice assignment; "
                           "counts from N simulated keys on the real genjax are validated by TLC against a non-asymptotic "
                           "Hoeffding bound in integer arithmetic (trace validation)",
-                text="For 11 finite discrete programs over dyadic categoricals (static nesting, vmap, repeat, scan with and without "
-                     "carry dependence, switch, mask, mix, dimap) N keys are simulated in one vmap; TLC enumerates the support "
+                text="For 15 finite discrete programs over dyadic categoricals (static nesting, vmap, repeat, scan with and without "
+                     "carry dependence and with a nested static call in the kernel, switch, mask, mix, dimap) N keys are simulated in one vmap; TLC enumerates the support "
                      "from Exec, checks every observed assignment is in it, every support cell's frequency is within the "
-                     "Hoeffding bound (delta=1e-12 over all cells), the counts total N, the spec's probabilities sum to 1, and "
+                     "Hoeffding bound (delta=1e-12 over all cells), every pairwise marginal (two addresses, value or absence) is within the same bound, the counts total N, the spec's probabilities sum to 1, and "
                      "the same keys reproduce the same traces (also through propose). Two further programs (repeat / vmap of a switch) are sampled through an UPDATE that changes every element's branch index: the redrawn elements must be independent draws (joint cells within the bound).",
                 note="Detects deviations >= ~0.065 (quick) / ~0.03 (thorough) in a cell probability (key reuse between sites or "
                      "iterations moves cells by >= 0.125). Continuous programs' moments are not covered."),
@@ -235,16 +235,29 @@ def run(prop_id, tier, seed, replay=None):
         ev["tid"] = tid
         ev["bound"] = bound
         ev["kind"] = "sim"
-    path = os.path.join(wd, "events.json")
-    vlib.write_json(path, evs)
+    vlib.write_json(os.path.join(wd, "events.json"), evs)
     with open(os.path.join(wd, "trace.cfg"), "w") as f:
         f.write("SPECIFICATION TSpec\nINVARIANT Report\nCHECK_DEADLOCK FALSE\n")
-    res = vlib.run_tlc("GFISample", os.path.join(wd, "trace.cfg"), wd, workers=1, env={"TRACE_FILE": path}, tag="validate", jvm=["-Xss64m"])
-    rep.add_tlc(res)
-    verdicts = list(res.payloads("VERDICT"))
-    if not verdicts or verdicts[0]["n"] != len(evs):
-        raise vlib.MachineryError("sample validation did not consume the log")
-    for f in verdicts[0]["fails"]:
+    # one TLC process per slice of the log (the support enumeration of a 6-choice program dominates): longest first
+    order = sorted(range(len(evs)), key=lambda i: -len(catalog[evs[i]["pid"]]["addrs"]))
+    nsl = min(6, max(1, len(evs)))
+    slices = [[evs[i] for i in order[k::nsl]] for k in range(nsl)]
+
+    def validate_slice(k):
+        path = os.path.join(wd, f"events_{k}.json")
+        vlib.write_json(path, slices[k])
+        return vlib.run_tlc("GFISample", os.path.join(wd, "trace.cfg"), wd, workers=1, env={"TRACE_FILE": path}, tag=f"validate_{k}", jvm=["-Xss64m"])
+    from concurrent.futures import ThreadPoolExecutor
+    with ThreadPoolExecutor(nsl) as ex:
+        results = list(ex.map(validate_slice, range(nsl)))
+    fails = []
+    for k, res in enumerate(results):
+        rep.add_tlc(res)
+        verdicts = list(res.payloads("VERDICT"))
+        if not verdicts or verdicts[0]["n"] != len(slices[k]):
+            raise vlib.MachineryError("sample validation did not consume the log")
+        fails += verdicts[0]["fails"]
+    for f in fails:
         ev = evs[f["tid"]]
         j = jobs[ev["job"]]
         for cl in f["clauses"]:
